@@ -257,7 +257,28 @@ def builtin_exceptions():
     return BUILTIN_EXC
 
 
+def may_be_shadowed_dynamically(tree):
+    """a star import, or a reference that reaches module level as exec / eval / locals / globals / vars (the module is "tainted"):
+    any builtin name may be re-bound behind the analysis' back, so no name counts as un-shadowed"""
+    from harness import pyscope
+    for n in ast.walk(tree):
+        if isinstance(n, ast.ImportFrom) and any(a.name == '*' for a in n.names):
+            return True
+        if isinstance(n, (ast.Import, ast.ImportFrom)) and any(a.name.split('.')[0] == 'timeit' for a in n.names):
+            return True
+    try:
+        r = pyscope.Resolver(tree)
+        for (node, _f, _i, name, _sc, ctx), ident in zip(r.occ, r.identities()):
+            if name in ('exec', 'eval', 'locals', 'globals', 'vars') and ident[0] in ('module', 'free') and ctx == 'load':
+                return True
+    except Exception:
+        return True
+    return False
+
+
 def bound_names(tree):
+    if may_be_shadowed_dynamically(tree):
+        return set(builtin_exceptions()) | {'__everything__'}
     b = set()
     for n in ast.walk(tree):
         if isinstance(n, ast.Name) and isinstance(n.ctx, (ast.Store, ast.Del)):
@@ -471,6 +492,15 @@ ORACLE_EXTRA = [
     'def f(a, /, b, *, c):\n    return a\nlambda x, /, y: x\n',
     'raise ValueError()\n', 'def f():\n    raise KeyError()\n', 'ValueError = E\nraise ValueError()\n', 'def f(ValueError):\n    raise ValueError()\n', 'raise ValueError(1)\n', 'raise E()\n',
     'def f():\n    raise TypeError() from None\n', 'import ValueError\nraise ValueError()\n',
+    # keyword-only calls keep their brackets; in a module where names can be re-bound dynamically nothing is "un-shadowed"
+    'raise ImportError(name=n, path=p)\n', 'raise ValueError(**details)\n', 'def f():\n    raise KeyError(*args)\n', 'raise ValueError(value=v)\n',
+    'from helpers import *\ndef f():\n    raise ValueError()\n', 'import timeit\nraise KeyError()\n', "eval('1')\ndef f():\n    raise TypeError()\n", 'def f():\n    print(locals())\n    raise OSError()\n',
+    'def f():\n    global vars\n    raise ValueError()\n', 'class K:\n    def m(self):\n        exec("x")\n        raise IndexError()\n', 'from . import *\nraise RuntimeError()\n',
+    # a value-less annotation is the only thing that makes the name local
+    'def f():\n    size: int\n    def g():\n        nonlocal size\n        size = 1\n    g()\n    return [size for size in (size,)]\n', 'def f():\n    size: int\n    class C:\n        size = 0\n    def g():\n        nonlocal size\n        size = 2\n    g()\n    return size, C.size\n',
+    # a bare return that is NOT the end of the function: inside try with an else clause, inside loops, before finally
+    'def f(x):\n    try:\n        x()\n        return\n    except ValueError:\n        pass\n    else:\n        print("else")\n', 'def f(x):\n    for i in x:\n        if i:\n            return\n    else:\n        print(1)\n',
+    'def f(x):\n    if x:\n        return None\n    else:\n        return\n', 'def f(x):\n    with x:\n        return None\n', 'def f(x):\n    try:\n        return None\n    finally:\n        print(2)\n', 'def f(x):\n    while x:\n        return\n    print(3)\n',
     '"""doc"""\nprint(__doc__)\n', '"""doc"""\ndef f():\n    "fdoc"\n    return __doc__\n', '"""doc"""\nimport m\nprint(m.__doc__)\n', '"""doc"""\nx = 1\n',
     # every way a module can mention __doc__: augmented assignment (reads the old value), store, delete, attribute store, global, in a branch, in a class, formatted
     '"""doc"""\n__doc__ += " more"\n', '"""doc"""\nif x:\n    __doc__ += "a"\nelse:\n    __doc__ += "b"\n', '"""doc"""\n__doc__ = "other"\n', '"""doc"""\ndel __doc__\n',
